@@ -580,7 +580,13 @@ theorem unrefT_ok {cfg : Cfg} (R : Repaired cfg) {st : St} (inv : SInvB gh st []
         w'.refcount + (if i = x then 1 else 0) + (if i ∈ dropped then 1 else 0) ≤ w.refcount) ∧
       (∀ (i : Nat) (w w' : Win), LiveW st.tree i w → LiveW t' i w' →
         w.refcount ≤ w'.refcount + (if i = x then 1 else 0) + (if i ∈ dropped then 1 else 0)) ∧
-      (∀ (w : Win), LiveW st.tree 0 w → (x ≠ 0 ∨ 2 ≤ w.refcount) → ∃ w', LiveW t' 0 w') := by
+      (∀ (w : Win), LiveW st.tree 0 w → (x ≠ 0 ∨ 2 ≤ w.refcount) → ∃ w', LiveW t' 0 w') ∧
+      -- where the cascade reaches: below `x`; what is not listed dead lives on; links are only removed; and a cascade
+      -- there is only if that was the last reference
+      ((∀ (i : Nat), i ∈ dead ∨ i ∈ dropped → Reach st.tree i x) ∧
+       (∀ (i : Nat) (w : Win), LiveW st.tree i w → i ∉ dead → ∃ w', LiveW t' i w') ∧
+       PSub st.tree t' ∧
+       ((dead ≠ [] ∨ dropped ≠ []) → xw.refcount = 1)) := by
   have hr1 := inv.rc x xw hl
   obtain ⟨inv0, _⟩ := inv.tinv.set_refcount hl (xw.refcount - 1)
   have hl0 : LiveW (WinTree.set st.tree x { xw with refcount := xw.refcount - 1 }) x { xw with refcount := xw.refcount - 1 } :=
@@ -632,8 +638,31 @@ theorem unrefT_ok {cfg : Cfg} (R : Repaired cfg) {st : St} (inv : SInvB gh st []
         by_cases h0 : (0 : Nat) = x
         · subst h0; exact ⟨_, hl0⟩
         · exact ⟨r, by rw [set_get_ne _ (Ne.symm h0)]; exact hr.1, hr.2⟩
+    have psub0 : PSub st.tree (WinTree.set st.tree x { xw with refcount := 0 }) := by
+      intro i w' p hw' hp'
+      by_cases hix : x = i
+      · subst hix
+        rw [set_get_self _ hl.lt] at hw'; cases hw'
+        exact ⟨xw, hl.1, hp'⟩
+      · rw [set_get_ne _ hix] at hw'; exact ⟨w', hw', hp'⟩
+    have hX : (∀ (i : Nat), i ∈ dead ∨ i ∈ dropped → Reach st.tree i x) ∧
+        (∀ (i : Nat) (w : Win), LiveW st.tree i w → i ∉ dead → ∃ w', LiveW t' i w') ∧ PSub st.tree t' ∧
+        ((dead ≠ [] ∨ dropped ≠ []) → xw.refcount = 1) := by
+      refine ⟨fun i hi => psub0.reach (C.reach i hi), ?_, psub0.trans C.psub, fun _ => by omega⟩
+      intro i w hlw hnd
+      obtain ⟨w', hw', _, _⟩ := evs i w hlw.1
+      refine ⟨w', hw', ?_⟩
+      cases hf' : w'.freed with
+      | false => rfl
+      | true =>
+        exfalso
+        apply hnd
+        refine (C.dead.2 i).2 ⟨?_, w', hw', hf'⟩
+        by_cases hix : i = x
+        · subst hix; exact ⟨_, hl0⟩
+        · exact ⟨w, by rw [set_get_ne _ (Ne.symm hix)]; exact hlw.1, hlw.2⟩
     refine ⟨?_, hsz, fun i w hw hf => by obtain ⟨w', hw', h1, _⟩ := evs i w hw; exact ⟨w', hw', h1 hf⟩,
-      ⟨C.drop.1, fun i hi => (C.drop.2 i hi).1⟩, ?_, ?_, ?_⟩
+      ⟨C.drop.1, fun i hi => (C.drop.2 i hi).1⟩, ?_, ?_, ?_, hX⟩
     rotate_right 2
     · -- the mirror of the upper bound: only `x` and the dropped children lose a reference, and exactly one
       intro i w w' hlw hlw'
@@ -744,7 +773,23 @@ theorem unrefT_ok {cfg : Cfg} (R : Repaired cfg) {st : St} (inv : SInvB gh st []
         · simp only [hd', if_false]
           rcases e.2.2.1 hli.2 with h | ⟨h, _, _⟩ <;> omega
   · simp only [hz, if_false, pure_ok]
-    refine ⟨_, [], [], rfl, ?_, by simp only [set_size], ?_, ⟨List.nodup_nil, by intro i hi; cases hi⟩, ?_, ?_, ?_⟩
+    have hX : (∀ (i : Nat), i ∈ ([] : List Nat) ∨ i ∈ ([] : List Nat) → Reach st.tree i x) ∧
+        (∀ (i : Nat) (w : Win), LiveW st.tree i w → i ∉ ([] : List Nat) →
+          ∃ w', LiveW (WinTree.set st.tree x { xw with refcount := xw.refcount - 1 }) i w') ∧
+        PSub st.tree (WinTree.set st.tree x { xw with refcount := xw.refcount - 1 }) ∧
+        ((([] : List Nat) ≠ [] ∨ ([] : List Nat) ≠ []) → xw.refcount = 1) := by
+      refine ⟨fun i hi => (by rcases hi with h | h <;> cases h), ?_, ?_, fun h => (by rcases h with h | h <;> exact absurd rfl h)⟩
+      · intro i w hlw _
+        by_cases hix : i = x
+        · subst hix; exact ⟨_, hl0⟩
+        · exact ⟨w, by rw [set_get_ne _ (Ne.symm hix)]; exact hlw.1, hlw.2⟩
+      · intro i w' p hw' hp'
+        by_cases hix : x = i
+        · subst hix
+          rw [set_get_self _ hl.lt] at hw'; cases hw'
+          exact ⟨xw, hl.1, hp'⟩
+        · rw [set_get_ne _ hix] at hw'; exact ⟨w', hw', hp'⟩
+    refine ⟨_, [], [], rfl, ?_, by simp only [set_size], ?_, ⟨List.nodup_nil, by intro i hi; cases hi⟩, ?_, ?_, ?_, hX⟩
     rotate_right 2
     · intro i w w' hlw hlw'
       by_cases hix : i = x
@@ -870,12 +915,21 @@ theorem unrefW_ok {cfg : Cfg} (R : Repaired cfg) {st : St} (inv : SInv gh st) {x
       st'.tree.wins.size = st.tree.wins.size ∧
       (∀ (i : Nat) (w : Win), st.tree.wins[i]? = some w → w.freed = true →
         ∃ w', st'.tree.wins[i]? = some w' ∧ w'.freed = true) ∧
-      (getX st' x).appRefs + 1 ≤ (getX st x).appRefs ∧ (∀ (j : Nat), (getX st' j).appRefs ≤ (getX st j).appRefs) := by
+      (getX st' x).appRefs + 1 ≤ (getX st x).appRefs ∧ (∀ (j : Nat), (getX st' j).appRefs ≤ (getX st j).appRefs) ∧
+      -- the same in detail: who has died (`dead`), whose reference a dying parent has taken (`dropped`)
+      (∃ dead dropped : List Nat,
+        (∀ (i : Nat) (w' : Win), LiveW st'.tree i w' → ∃ w, LiveW st.tree i w ∧
+          w.refcount = w'.refcount + (if i = x then 1 else 0) + (if i ∈ dropped then 1 else 0)) ∧
+        (∀ (i : Nat), i < st.wx.size → (getX st' i).appRefs = (getX st i).appRefs - (if i = x then 1 else 0) - (if i ∈ dropped then 1 else 0)) ∧
+        (∀ (i : Nat), i ∈ dead ∨ i ∈ dropped → Reach st.tree i x ∧ i ≠ x ∨ i = x ∧ i ∈ dead) ∧
+        (∀ (i : Nat) (w : Win), LiveW st.tree i w → i ∉ dead → ∃ w', LiveW st'.tree i w') ∧
+        PSub st.tree st'.tree ∧
+        ((dead ≠ [] ∨ dropped ≠ []) → ∀ (w : Win), LiveW st.tree x w → w.refcount = 1)) := by
   obtain ⟨xw, hl, hpos⟩ := heldW_spec hh
   have hxlt : x < st.wx.size := by rw [inv.wx_size]; exact hl.lt
   have inv0 : SInvB gh (setX st x { getX st x with appRefs := (getX st x).appRefs - 1 }) [] :=
     inv.toSInvB.of_wx rfl rfl rfl rfl rfl (setX_map_pen _ rfl)
-  obtain ⟨t', dead, dropped, ht, invG, hsz, hfr, ⟨hnd, hdgt⟩, hcnt, hlow, hrootl⟩ := unrefT_ok R inv0 (x := x) (xw := xw) hl
+  obtain ⟨t', dead, dropped, ht, invG, hsz, hfr, ⟨hnd, hdgt⟩, hcnt, hlow, hrootl, hXt⟩ := unrefT_ok R inv0 (x := x) (xw := xw) hl
   have hf := consume_frame dropped { (setX st x { getX st x with appRefs := (getX st x).appRefs - 1 }) with tree := t' }
   have invC : SInvB gh (consume { (setX st x { getX st x with appRefs := (getX st x).appRefs - 1 }) with tree := t' } dropped) dead :=
     invG.of_wx hf.1 hf.2.1 hf.2.2.1 hf.2.2.2.1 hf.2.2.2.2.1 (consume_map_pen dropped _)
@@ -968,11 +1022,56 @@ theorem unrefW_ok {cfg : Cfg} (R : Repaired cfg) {st : St} (inv : SInv gh st) {x
   · intro i w hw hfw
     rw [htree]
     exact hfr i w hw hfw
-  · refine ⟨?_, fun j => ?_⟩
+  · refine ⟨?_, fun j => ?_, dead, dropped, ?_, ?_, ?_, ?_, ?_, ?_⟩
     · have := (happ x).1
       simp only [if_true] at this
       omega
     · have := (happ j).1
       omega
+    · intro i w' hli
+      rw [htree] at hli
+      obtain ⟨w, hlw, hle⟩ := hcnt i w' hli
+      have := hlow i w w' hlw hli
+      exact ⟨w, hlw, by omega⟩
+    · intro i hilt
+      rw [ha2 i]
+      have e0 : getX { (setX st x { getX st x with appRefs := (getX st x).appRefs - 1 }) with tree := t' } i =
+          getX (setX st x { getX st x with appRefs := (getX st x).appRefs - 1 }) i := rfl
+      by_cases hd' : i ∈ dropped
+      · have hdec := consume_dec dropped { (setX st x { getX st x with appRefs := (getX st x).appRefs - 1 }) with tree := t' } i hnd hd'
+          (by simpa using hilt)
+        rw [hdec, e0, getX_setX]
+        have hxi : ¬ x = i := fun e => by have := hdgt i hd'; omega
+        have hix : ¬ i = x := fun e => hxi e.symm
+        simp only [hxi, false_and, if_false, hix, hd', if_true]
+        omega
+      · have hc := consume_appRefs dropped { (setX st x { getX st x with appRefs := (getX st x).appRefs - 1 }) with tree := t' } i hnd
+        simp only [hd', if_false, Nat.add_zero] at hc
+        have : (getX (consume { (setX st x { getX st x with appRefs := (getX st x).appRefs - 1 }) with tree := t' } dropped) i).appRefs =
+            (getX { (setX st x { getX st x with appRefs := (getX st x).appRefs - 1 }) with tree := t' } i).appRefs :=
+          Nat.le_antisymm hc.1 hc.2
+        rw [this, e0, getX_setX]
+        by_cases hxi : x = i
+        · subst hxi
+          simp only [hxlt, and_self, if_true, hd', if_false]
+          omega
+        · have hix : ¬ i = x := fun e => hxi e.symm
+          simp only [hxi, false_and, if_false, hix, hd']
+          omega
+    · intro i hi
+      by_cases hix : i = x
+      · right
+        refine ⟨hix, ?_⟩
+        rcases hi with h | h
+        · exact h
+        · exfalso; have := hdgt i h; omega
+      · exact .inl ⟨hXt.1 i hi, hix⟩
+    · intro i w hlw hnd'
+      rw [htree]
+      exact hXt.2.1 i w hlw hnd'
+    · rw [htree]; exact hXt.2.2.1
+    · intro hne w hlw
+      have := LiveW.unique hlw hl; subst this
+      exact hXt.2.2.2 hne
 
 end Tickit.Life
